@@ -4,7 +4,7 @@ import random
 import numpy as np
 import pandas as pd
 
-from .. import common
+from .. import common, checklib
 from ..rtc import par
 
 LEVEL = "exploration"
@@ -102,7 +102,13 @@ def _chunk(task):
     return out
 
 
+def PROOFS():
+    from ..contracts import call_resolver_c
+    return [("vf.contracts.call_resolver_c", ["formulae.terms.call_resolver.LazyCall.eval"])]
+
+
 def run(report, findings):
+    checklib.run_proofs(report, "C06", PROOFS())
     fk = {f["id"] for f in findings if f.get("kind") == "finding"}
     seeds = [common.seed()] if report.tier == "quick" else [common.seed() + i for i in range(6)]
     evals = ok = bad = 0
